@@ -28,6 +28,8 @@ Definition ChildProcessErrorC : exn := [0; 11; 0].
    an Exception that is neither EOFError nor OSError.  (An unpickling error that IS an OSError is
    indistinguishable, for the protocol, from a truncated message.) *)
 Definition UnpickleErrC : exn := [0; 31].
+(* asyncio.CancelledError: a BaseException that is not an Exception; numbering local to C17 *)
+Definition CancelledErrorC : exn := [4].
 
 (* ---- descriptor tables ------------------------------------------------------------ *)
 Record ends := { e_rx : bool; e_tx : bool }.
